@@ -27,7 +27,7 @@ def run(chk):
                    {"event.json": e})
     chk.cov.update({"states": r["states"], "transitions": r["states"], "traces_validated_against_impl": r["events"],
                     "evaluations": r["events"], "distinct_nontrivial": r["cases"],
-                    "rule": "lines enumerated by the driver with InputLogMaxMessageBytes=12, InputLogMaxRecordBytes=64: every PRI 0..191 and 13 out-of-range/non-canonical ones under 3 level mappings; first-token framings; each header token from 7 value classes one at a time and all at once, empty and missing tokens, absent/empty message; every prefix of a valid line; message bodies = every tail of <=%d symbols over {a, space, newline, 2/3/4-byte characters, invalid byte} behind 6-13 filler bytes and behind headers of 4 lengths (raw length below/at/above the record limit)" % (4 if chk.tier == "thorough" else 3),
+                    "rule": "lines enumerated by the driver with InputLogMaxMessageBytes=12, InputLogMaxRecordBytes=64: every PRI 0..191 and 13 out-of-range/non-canonical ones under 3 level mappings; first-token framings; each header token from 7 value classes one at a time and all at once, empty and missing tokens, absent/empty message; every prefix of a valid line; message bodies = every tail of <=%d symbols over {a, space, newline, 2/3/4-byte characters, invalid byte} behind 6-13 filler bytes and behind headers of 15 lengths (raw length below/at/above the record limit; header alone below/at/above it); the header skeleton: every string of <=%d symbols over {< > 1 3 space - a} followed by a well-formed remainder and by filler" % (5 if chk.tier == "thorough" else 3, 7 if chk.tier == "thorough" else 5),
                     "exhaustive": True,
                     "samples": [json.loads(l) for l in open(r["first_trace"]).read().splitlines()[5:7]]})
     chk.assumptions += ["well-formed = canonical PRI 0..191, version 1, six non-empty tokens and a message part (7 spaces); for other lines only 'counted exactly once, never a panic' is demanded",
